@@ -203,6 +203,12 @@ def texts_generated(quick):
              "OBJECT = o\n OBJECT = o\n  OBJECT = o\n   k = ((1, 2), {3}) <m>\n  END_OBJECT\n END_OBJECT\nEND_OBJECT\n"]
     for t in extra:
         yield "extra", t
+    # the keywords real labels start with, in every order (encoders know some of them by name)
+    import itertools as _it
+    stmts = ["PDS_VERSION_ID = PDS3", "RECORD_TYPE = FIXED_LENGTH", "^IMAGE = 5", "LABEL_RECORDS = 1",
+             "OBJECT = IMAGE\n  LINES = 2\nEND_OBJECT = IMAGE", "GROUP = EXTRA\n  ^TABLE = 5\nEND_GROUP"]
+    for perm in _it.permutations(stmts, 3):
+        yield "extra-keywords", "\n".join(perm) + "\nEND\n"
     # every container tree with <= 3 (quick) / 5 nodes, duplicate names forced, every leaf a different value
     from ..lib import gen
     for n in range(1, (3 if quick else 5) + 1):
